@@ -46,6 +46,21 @@ func seqCase(prop, engine string, weight int, prof dbworld.Profile) Case {
 		}}
 }
 
+func tamperCase() Case {
+	prof := dbworld.Profile{Prop: "C05", Oracles: orc("tamper")}
+	return Case{Prop: "C05", Engine: "dbworld-tamper", Weight: 2,
+		Real: []string{"db (Open / load path)", "tink AEAD (real keys)", "tmpfs file system"},
+		Stub: []string{"key service (in-process key)"},
+		Run: func(s *kernel.Sim) Outcome {
+			p := prof
+			e := dbworld.RunTamper(s, &p)
+			if e == nil {
+				return Outcome{}
+			}
+			return Outcome{Trace: e.Trace, Nontrivial: true, Ops: e.Ops}
+		}}
+}
+
 // Cases lists every (property, engine) pair.
 var Cases = []Case{
 	seqCase("C02", "dbworld-seq", 1, dbworld.Profile{MaxOps: 40, MaxNames: 3,
@@ -54,8 +69,15 @@ var Cases = []Case{
 		Oracles: orc("denied", "denied-identical", "result", "list", "state", "open")}),
 	seqCase("C03", "dbworld-restart", 1, dbworld.Profile{RestartMode: 1, Golden: true, MaxOps: 30, MaxNames: 3,
 		Oracles: orc("result", "list", "state", "restart", "open-modifies", "golden", "open")}),
-	seqCase("C09", "dbworld-cond", 1, dbworld.Profile{HTTPMode: 1, Restricted: 1, RestartMode: 1, CondHeavy: true, MaxOps: 40, MaxNames: 2,
-		Oracles: orc("result", "state", "denied", "open")}),
+	seqCase("C09", "dbworld-cond", 1, dbworld.Profile{HTTPMode: 1, Restricted: 1, RestartMode: 1, CondHeavy: true, FileClient: true, MaxOps: 40, MaxNames: 2,
+		Oracles: orc("result", "state", "denied", "open", "fileclient")}),
+	seqCase("C06", "dbworld-audit", 3, dbworld.Profile{Restricted: 2, HTTPMode: 1, AuditFaults: true, MaxOps: 30, MaxNames: 3,
+		Oracles: orc("audit", "audit-quiet", "audit-order", "audit-failclosed", "open")}),
+	seqCase("C08", "dbworld-http", 1, dbworld.Profile{Restricted: 2, HTTPMode: 2, Corruptions: true, MaxOps: 40, MaxNames: 3,
+		Oracles: orc("http-gate", "http-status", "http-leak", "result", "list", "denied", "state", "audit", "open")}),
+	seqCase("C05", "dbworld-scan", 3, dbworld.Profile{Scan: true, KEKOutage: true, RestartMode: 1, MaxOps: 25, MaxNames: 3,
+		Oracles: orc("plaintext", "mode", "kek", "result", "state", "restart", "open")}),
+	tamperCase(),
 }
 
 // CasesFor returns the cases of a property.
